@@ -387,6 +387,32 @@ def matmul_chain_case(rng):
                 nontrivial=bool(meta["nodd"] >= 2), op="network", triggers=[])
 
 
+def _scalar_forms(env2, steps):
+    """every step of a route that contracts a network completely (rank-0 result) is repeated in its SCALAR form —
+    the default `preserve_array=False` return path of tensordot — and must give the same number, overall sign
+    included, as the array form the routes were compared in"""
+    import symmray as sr
+
+    for st in steps:
+        if st["op"] != "tensordot" or st["out"][0] not in env2:
+            continue
+        r = env2[st["out"][0]]
+        if not isinstance(r, sr.FermionicArray) or r.ndim != 0:
+            continue
+        a, b = env2[st["in"][0]], env2[st["in"][1]]
+        xa, xb = st["params"]["axes"]
+        want = complex(r.phase_sync().blocks.get((), 0.0))
+        for mode in (st["params"].get("mode"), None):
+            got = sr.tensordot(a, b, (tuple(xa), tuple(xb)), **({"mode": mode} if mode else {}))
+            if isinstance(got, sr.AbelianArray):
+                return f"tensordot to rank 0 without preserve_array returned an array (mode={mode})"
+            if complex(got) != want:
+                return (f"closed network: the scalar returned by tensordot ({complex(got)}, mode={mode}) differs from "
+                        f"the value of the same contraction kept as an array ({want}): the overall sign depends on "
+                        f"the return path")
+    return None
+
+
 def gen_cases(seed, chunk, n, tier):
     rng = random.Random(seed * 7919 + chunk * 104729 + 4)
     out = [rebuild_case(rng) for _ in range(max(1, n // 12))]
@@ -419,6 +445,8 @@ def gen_cases(seed, chunk, n, tier):
                     break
             if orc is None and getattr(env2[finals[0]], "oddpos", ()):
                 orc = f"fully contracted <psi|psi> keeps labels {[(o.label, o.dual) for o in env2[finals[0]].oddpos]}"
+            if orc is None:
+                orc = _scalar_forms(env2, steps)
         meta = dict(sym=sym, static=static, shape=shape, pending=pending, nodd=sum(int(t.parity) for t in tens))
         out.append(dict(case=_mk_case(env, steps), impl=stream.strip_py(res), oracle=orc, meta=meta,
                         nontrivial=bool(meta["nodd"] >= 2), op="network", triggers=[]))
@@ -449,6 +477,8 @@ def gen_cases(seed, chunk, n, tier):
                 if vals[r] != vals[0]:
                     orc = f"route {r} and route 0 give different results (value, sign or labels)"
                     break
+            if orc is None:
+                orc = _scalar_forms(env2, steps)
         meta = dict(sym=sym, static=static, shape=shape, pending=pending,
                     nodd=sum(int(t.parity) for t in tens))
         distinct = len({repr([s for s in steps if s["out"][0].startswith(f"r{r}")]).replace(f"r{r}", "") for r in range(nroutes)})
